@@ -1703,6 +1703,9 @@ class SFSDistribution(PhaseTypeDistribution, ABC):
         if theta < 0:
             raise ValueError("Theta must be greater than or equal to 0.")
 
+        # point the (possibly shared) state space at the epoch of this distribution
+        self.state_space.update_epoch(self.demography.get_epoch(0))
+
         # number of frequency bins
         n = len(self._get_configs(self.lineage_config.n, 0)[0])
 
